@@ -634,6 +634,8 @@ impl<'lexer> Lexer<'lexer> {
     // ------------------------------------------------------------------------
     if let Some(part_name) = parts.get(0) {
       if part_name == "item" {
+        // `item` as the variable of an iteration or quantified context: the variable name has been read
+        self.till_in = false;
         self.position = consumed_positions[0] + 1;
         return Ok((TokenType::Name, TokenValue::Name(Name::from("item"))));
       }
